@@ -209,13 +209,17 @@ fn lzip_prefix_members(orig: &[u8], mutant: &[u8], out_len: usize) -> bool {
     for (i, &s) in starts.iter().enumerate() {
         let e = if i + 1 < starts.len() { starts[i + 1] } else { orig.len() };
         let ds = u64::from_le_bytes(orig[e - 16..e - 8].try_into().unwrap()) as usize;
-        if cum == out_len {
+        // a boundary AFTER at least one complete member (empty members give several boundaries with the same
+        // cumulative size: any of them qualifies)
+        if cum == out_len && i >= 1 {
             idx = i;
             // the first lost member starts at s: its magic must be damaged in the mutant
             let same_prefix = mutant.len() >= s && mutant[..s] == orig[..s];
             let magic_damaged = mutant.len() < s + 4 || &mutant[s..s + 4] != b"LZIP";
             let _ = idx;
-            return same_prefix && magic_damaged && out_len > 0;
+            if same_prefix && magic_damaged {
+                return true;
+            }
         }
         cum += ds;
     }
